@@ -234,7 +234,12 @@ impl<'a> MslV<'a> {
             return r;
         }
         // the static type also decides whether the function is modelled at all
-        self.lib_type(lib, &tys)?;
+        let rt = self.lib_type(lib, &tys)?;
+        if lib == "transpose" {
+            let v = self.eval(&args[0], fr, mem, cx, depth)?;
+            let (pt, ret) = (numeric_ty(&self.arith(&tys[0])?)?, numeric_ty(&rt)?);
+            return vintr("Transpose", &[pt.show()], &[v], &ret);
+        }
         let variant = MBUILTINS.iter().find(|b| b.0 == lib)?.1;
         let mut vals = Vec::new();
         for a in args {
